@@ -403,7 +403,7 @@ def t_ptr_walk(te):
     body = [D(["ptr", te], "q", V("p")), D("llong", "s", L(0)),
             ["for", D("int", "i", L(0)), B("lt", V("i"), L(2)), ID("postinc", V("i")),
              E(A(V("s"), ["deref", ID("postinc", V("q"))], "add"))],
-            E(A(["deref", V("q")], V("s"))),
+            E(A(["deref", V("p")], V("s"))),
             RET(B("sub", V("q"), V("p")))]
     return entry("stmt/ptr-walk", prog([func("f", "llong", [("p", ["ptr", te])], body)]), (te,))
 
